@@ -30,7 +30,7 @@ func init() {
 		Quick: 300000, Thorough: 20000000,
 		Run:        runC02,
 		Rule:       "one run = one generated target type, an initial target state (zero or pre-populated: non-nil maps, slices, pointers, pointers to pointers, interface fields holding pointers) and a history of 2..8 decodes into the same target through Unmarshal / Parse(b,x,0) / Decoder.Decode with each subset of {UseNumber, DisallowUnknownFields}, mirrored step by step on encoding/json with an isomorphic target; documents are encoding/json's own encoding of fresh values of the type, mutated at the value-tree level (always syntactically valid JSON). non-trivial = at least one decode after the first hit a target that already held data (a non-empty prior state); distinct = distinct hash of (type, initial state, documents, entry points)",
-		FaultKinds: []string{"prior-state:prepopulated", "prior-state:left-by-earlier-decode", "prior-state:after-failed-decode(rebuilt)", "doc:null-subvalue", "doc:key-dropped", "doc:unknown-key", "doc:duplicate-key", "doc:key-case-changed", "doc:array-shortened", "doc:array-lengthened", "doc:kind-swapped", "doc:integer-boundary", "doc:top-level-empty", "entry:Unmarshal", "entry:Parse", "entry:Decoder", "entry:Decoder+UseNumber", "entry:Decoder+DisallowUnknownFields", "entry:Decoder-stream(one Decoder, successive values into one target)"},
+		FaultKinds: []string{"prior-state:prepopulated", "prior-state:left-by-earlier-decode", "prior-state:after-failed-decode(rebuilt)", "doc:null-subvalue", "doc:key-dropped", "doc:unknown-key", "doc:duplicate-key", "doc:key-case-changed", "doc:array-shortened", "doc:array-lengthened", "doc:kind-swapped", "doc:integer-boundary", "doc:quoted-literal", "doc:top-level-empty", "entry:Unmarshal", "entry:Parse", "entry:Decoder", "entry:Decoder+UseNumber", "entry:Decoder+DisallowUnknownFields", "entry:Decoder-stream(one Decoder, successive values into one target)"},
 		ProbeNames: []string{"steps", "steps-both-ok", "steps-both-failed", "map-merged-into-non-empty", "slice-reused-with-capacity", "pointer-reused", "interface-held-pointer-present", "input-dimension-divergence-on-fresh-target(skipped, not claimed)"},
 		Real:       []string{"json.Unmarshal, json.Parse, json.Decoder and the whole decode path compiled from /repo's working tree (uninstrumented)"},
 		Model:      []string{"reference model: encoding/json of the toolchain applied to an isomorphic target, step by step"},
@@ -155,7 +155,7 @@ func jmutate(t *tape.Tape, root *jnode) (*jnode, []string) {
 		var nodes []*jnode
 		root.all(&nodes)
 		x := nodes[t.Intn(len(nodes))]
-		switch t.Pick(3, 2, 2, 2, 2, 2, 2, 3, 3, 1) {
+		switch t.Pick(3, 2, 2, 2, 2, 2, 2, 3, 3, 2, 1) {
 		case 0: // sub-value -> null
 			*x = jnode{kind: 'l', raw: "null"}
 			applied = append(applied, "doc:null-subvalue")
@@ -227,6 +227,9 @@ func jmutate(t *tape.Tape, root *jnode) (*jnode, []string) {
 				x.raw = intBoundaryLits[t.Intn(len(intBoundaryLits))]
 				applied = append(applied, "doc:integer-boundary")
 			}
+		case 9: // a quoted literal: "null", "true", "12", "" (what ',string' fields and Number read)
+			*x = jnode{kind: 's', raw: []string{`"null"`, `"true"`, `"false"`, `"12"`, `"-3"`, `""`, `"1.5"`, `" 7"`}[t.Intn(8)]}
+			applied = append(applied, "doc:quoted-literal")
 		default: // top-level empty / null
 			root = scalarOfKind(t, 3+t.Intn(4))
 			applied = append(applied, "doc:top-level-empty")
@@ -260,6 +263,11 @@ type C02Rich struct {
 	IP  *any
 	NA  C02Any
 	NAS []C02Any
+	PQ  *int     `json:"pq,string"`
+	PU  *uint8   `json:"pu,string"`
+	PB  *bool    `json:"pb,string"`
+	PF  *float64 `json:"pf,string"`
+	PS  *string  `json:"ps,string"`
 }
 
 // C02Any is a named empty interface: the library routes it through another
@@ -729,6 +737,9 @@ func c02ErrClass(a, b error) string {
 			}
 		}
 		return "cannot-unmarshal-into:" + kind
+	}
+	if strings.HasPrefix(s, "json: unknown field") {
+		return "unknown-field"
 	}
 	if i := strings.Index(s, ":"); i > 0 && strings.HasPrefix(s, "json: invalid character") {
 		s = s[:i]
